@@ -233,6 +233,13 @@ def run(ctx: Ctx) -> None:
     okret = bool(rets) and all(_under_empty_stack(cfgb, r) for r in rets)
     ctx.ob("R14.5", "parser:CxxParser._consume_balanced_tokens|returns only with an empty stack", okret, msg="the balanced consumer can return while brackets are still open", node=cb, mod=mod)
 
+    # ---------------------------------------------------------------- R14.6
+    # pragma contents end at the line end: a discarded token that swallows its newline must
+    # end the directive, or the next declaration's tokens become part of the pragma's Value
+    # (C09's R9.3, evaluated here under this property's id).
+    from . import c09
+    from ..report import SubCtx
+    c09.run(SubCtx(ctx, {"R9.3": ("R14.6", "pragma contents stop at the line end: a discarded token that can contain a newline is tested for one")}))  # type: ignore[arg-type]
 
 # ---------------------------------------------------------------------------
 
